@@ -359,13 +359,19 @@ class FormulaGen:
                 return m.Ite(self.gen(BOOL, d - 1), self.gen(ty, d - 1), self.gen(ty, d - 1))
             return None
         if ty.is_array_type():
-            k = self._pick(["store", "store", "ite", "const"])
+            k = self._pick(["store", "store", "ite", "const", "avalue"])
             if k == "store":
                 return m.Store(self.gen(ty, d - 1), self.gen(ty.index_type, d - 1), self.gen(ty.elem_type, d - 1))
             if k == "ite":
                 return m.Ite(self.gen(BOOL, d - 1), self.gen(ty, d - 1), self.gen(ty, d - 1))
             if k == "const":
                 return self.const(ty)
+            if k == "avalue":
+                # array value whose default / stored values are arbitrary terms (keys must be constants)
+                assign = {}
+                for _ in range(r.randint(0, 2)):
+                    assign[self.const(ty.index_type)] = self.gen(ty.elem_type, d - 1)
+                return m.Array(ty.index_type, self.gen(ty.elem_type, d - 1), assign)
             return None
         # custom sort
         k = self._pick(["fun", "ite"])
